@@ -8,7 +8,7 @@ PROP = {
                    "table and fails only when every bucket is full; wherever the migration to a larger table stops (any number of moved items, any "
                    "number of coexisting generations, repeatedly) the table invariant holds and the abstract contents are unchanged, so every "
                    "element stays findable, is traversed once and can be removed. The real containers are driven with refused bucket arrays, refused "
-                   "pool buffers, throwing element copies and throwing hash functors; the model must reproduce every intermediate layout."),
+                   "pool buffers, throwing element copies and throwing hash functors; the model must reproduce every intermediate layout. The probe loop of pvAddNogrow over the index functions TRANSLATED from the headers (tools/trspecs/HashProbe.py) reports 'table is full' only when every bucket is full (C11_full_only_when_all_buckets_full_translated)."),
     "level_note": ("Trusted as C01. The point where a fault strikes inside the migration is reported by the harness as the number of items moved "
                    "(the model does not predict allocator internals, DESIGN.md 2.7); functor faults need extraCheckMode = nothing (O1)."),
     "modules": ["Momo.Props.C11"],
@@ -24,6 +24,7 @@ PROP = {
         "Momo.HT.C11_reserve_every_fault_partial",
         "Momo.HT.C11_history_partial",
         "Momo.HT.C11_history_full_false",
+        "Momo.HT.C11_full_only_when_all_buckets_full_translated",
     ],
     "harnesses": [
         {"name": "c11_chain", "src": "c01_hash.cpp", "flags": ["-DVF_PART=0", "-DVF_FAULTS=1"]},
